@@ -576,6 +576,9 @@ func init() {
 	reg(&propDef{id: "C10", level: "exploration", crashIsViol: false,
 		batches: []batch{{name: "stops", quick: 2400, thorough: 90000}},
 		rule:    "each evaluation is one simulated transfer stopped at a tape-chosen message after the handshake by one of: user Ctrl-C plus prompt keys through the real promptui prompt (keep / delete), the public StopTransferringFiles(bool), SIGINT or SIGTERM delivered to the server main; non-trivial = the stop fired and termination bound, reports, delete/keep semantics and bystander files were all evaluated; distinct = distinct (configuration + stop kind, schedule-trace hash, tape hash)"})
+	reg(&propDef{id: "C17", level: "exploration", crashIsViol: true,
+		batches: []batch{{name: "tunnel", quick: 2400, thorough: 90000}},
+		rule:    "each evaluation is one simulated transfer with the tunnel offered (real listener code on an in-memory network with per-host ports, real client connector path, optionally one relay with its own tunnel hop) while 0-3 attacker tasks connect to the server's or the relay's port at tape-chosen times with: unrelated text, the greeting for another id, a truncated greeting, the greeting plus one byte, the greeting split across two writes, nothing, a flood of protocol-looking lines, or the right greeting after the genuine connection is in place - and keep writing fail lines afterwards; the client's connector succeeds, refuses, returns late (1.1-3.1 s), returns a dead connection, or the server cannot listen; once the tunnel carries traffic, fail lines are injected in-band in both directions; oracles: the transfer succeeds with identical files (C01 oracle) in every case, a connection that did not present the greeting receives nothing and is closed, a second correct greeting gets no transfer traffic, no more connections carry protocol traffic than there are tunnel hops; non-trivial = oracles evaluated; distinct = distinct (configuration + connector outcome + attacker kinds, schedule-trace hash, tape hash)"})
 	reg(&propDef{id: "C18", level: "exploration", crashIsViol: false,
 		batches: []batch{{name: "pauses", quick: 2400, thorough: 90000}},
 		rule:    "each evaluation is one simulated transfer (protocol 3 or 4, T in {2,5,20} s) paused 1-3 times at tape-chosen messages by Ctrl-C and continued through the real prompt after a think time of 0.02T..3T; non-trivial = at least one pause/continue cycle completed and the outcome rules (short pause => success with identical files; long pause => success or error, never a hang or a wrong file) and the no-data-while-paused monitor were evaluated; distinct = distinct (configuration + pause band + cycles, schedule-trace hash, tape hash)"})
